@@ -32,6 +32,7 @@
 #include "statset.h"
 
 #include <vector>
+#include <cstring>
 
 namespace MEDDLY {
     class forest;
@@ -939,17 +940,17 @@ class MEDDLY::forest {
         }
 
         /// Get the cardinality of an Index Set.
-        inline int getIndexSetCardinality(node_handle node) const {
+        inline long getIndexSetCardinality(node_handle node) const {
             if (!isIndexSet()) {
                 throw error(error::FOREST_MISMATCH, __FILE__, __LINE__);
             }
             if (isTerminalNode(node)) return (node != 0) ? 1 : 0;
-            // yes iff the unhashed extra header is non-zero.
-            const int* uhh = (const int*) nodeMan->getUnhashedHeaderOf(
-                    getNodeAddress(node)
-            );
-            MEDDLY_DCASSERT(*uhh > 0);
-            return *uhh;
+            // The unhashed extra header is the cardinality, stored as a long.
+            long card;
+            memcpy(&card, nodeMan->getUnhashedHeaderOf(getNodeAddress(node)),
+                    sizeof(long));
+            MEDDLY_DCASSERT(card > 0);
+            return card;
         }
 
     // ------------------------------------------------------------
